@@ -411,7 +411,7 @@ func (t *ValidatorTable) tag(x *Term) string {
 // error values, and whether the base is the incoming phi.
 func errsChain(x *Term, base string) (items []*Term, ok bool) {
 	for {
-		if x.Key() == base {
+		if x.Key() == base || (base == "nil" && isEmptySliceTerm(x)) {
 			return items, true
 		}
 		if x.Op == "append" && len(x.Args) == 2 && x.Args[1].Op == "lit" {
@@ -711,4 +711,20 @@ func fmtVal(v map[string]bool) string {
 		}
 	}
 	return strings.Join(s, " ")
+}
+
+// isEmptySliceTerm: nil, an empty literal, make(T, 0, …) or s[:0] — a slice
+// with no elements (its capacity does not matter to what is appended later).
+func isEmptySliceTerm(x *Term) bool {
+	switch {
+	case x.IsConst("nil"):
+		return true
+	case x.Op == "lit" && len(x.Args) == 0:
+		return true
+	case x.Op == "mkslice" && len(x.Args) > 0 && x.Args[0].IsConst("0"):
+		return true
+	case x.Op == "slice" && len(x.Args) == 4 && x.Args[2].IsConst("0") && (x.Args[1].IsConst("_") || x.Args[1].IsConst("0")):
+		return true
+	}
+	return false
 }
